@@ -51,12 +51,13 @@ def concretise(case, r, seed):
 def run_one(case, r, seed, variant="main"):
     trusted, new = concretise(case, r, seed)
     snap = (copy.deepcopy(trusted), copy.deepcopy(new))
-    out, exc, printed = lib.call(lib.cct("authentication").verify_root, trusted, new)
+    enc = r.choice(["utf-8"] * 5 + ["ascii", "ascii", "latin-1", "cp1252", "cp437"])      # verdicts must not depend on stdout's encoding
+    out, exc, printed = lib.call(lib.cct("authentication").verify_root, trusted, new, encoding=enc)
     try:
         mutated = twin_canon(trusted) != twin_canon(snap[0]) or twin_canon(new) != twin_canon(snap[1])
     except TypeError:
         mutated = repr(trusted) != repr(snap[0]) or repr(new) != repr(snap[1])
-    return {"variant": variant, "observed": out, "exc": exc, "allowed": case["allowed"], "mutated": mutated,
+    return {"variant": variant, "observed": out, "exc": exc, "allowed": case["allowed"], "mutated": mutated, "stdout_encoding": enc,
             "concrete": {"trusted": snap[0], "offered": snap[1]}, "case": case}
 
 
